@@ -378,6 +378,11 @@ def run(ctx: Ctx, rep: Report, tier: str) -> None:
     from .c16 import items_before_line
 
     items_before_line(ctx, rep, rid="R04.4")
+    # R04.7 ... and the copy holds the same entries: a container stamps on the children it rebuilds only settings it
+    # exports itself (a stamped, un-exported limit makes the copy refuse - and with a swallowing handler, drop - an entry)
+    from .c16 import settings_propagation
+
+    settings_propagation(ctx, rep, rid="R04.7")
     # R04.5 premise: the removal uses the report computed under the caller's skip options
     from .c11 import skip_forwarding
 
